@@ -319,6 +319,14 @@ func c13Random(rr *prng.R, r *fw.Rec) {
 		// error clause: one item gets a key of a wrong or mixed type
 		bad := items[rr.Intn(len(items))].(map[string]interface{})
 		bad[names[0]] = []interface{}{true, A{1.0}, O{"x": 1.0}, "a", 2.0}[rr.Intn(5)]
+		switch rr.Intn(4) {
+		case 0:
+			// ... also when it is the only item of the sequence: a key that cannot
+			// be ordered is an error however few items there are to order
+			doc["arr"] = A{bad}
+		case 1:
+			doc["arr"] = bad
+		}
 		c13Run(r, sortProgram(terms), doc, nil, nil, "order-by-bad-key")
 	case kind == 6:
 		// computed keys
